@@ -116,7 +116,18 @@ class ContextBoundSerDes(SerDes):
         return d["v"]
 
 
-SERDES = {None: None, "json": JsonSerDes(), "utf8json": Utf8JsonSerDes(), "tagged": TaggedSerDes(), "ctxbound": ContextBoundSerDes()}
+class ExoticSerDes(SerDes):
+    """Handles a value type the default serializer rejects (sets), as an item serdes for a custom result class would."""
+
+    def serialize(self, value, _ctx):
+        return json.dumps({"set": sorted(value)} if isinstance(value, (set, frozenset)) else {"v": value})
+
+    def deserialize(self, data, _ctx):
+        d = json.loads(data)
+        return set(d["set"]) if "set" in d else d["v"]
+
+
+SERDES = {None: None, "exotic": ExoticSerDes(), "json": JsonSerDes(), "utf8json": Utf8JsonSerDes(), "tagged": TaggedSerDes(), "ctxbound": ContextBoundSerDes()}
 
 
 class CapLogger:
@@ -450,6 +461,8 @@ class Interp:
             r = node["result"]
             if isinstance(r, dict) and "big" in r:
                 return r.get("ch", "x") * r["big"]
+            if isinstance(r, dict) and r.get("exotic"):
+                return {1, 2, 3}  # a value only a custom (item) serdes can record
             return r
         return [canon(o) for o in outs]
 
